@@ -41,12 +41,6 @@ import (
 
 const prop = "C14"
 
-// knownPoolLeak is the signature of the (so far unrepaired) defect found by this check:
-// release() of the pooled handshake object keeps Version / ClientVersion of the last
-// remote credentials and UnmarshalVT merges, so credentials that omit those fields
-// inherit the values of an earlier peer.
-const knownPoolLeak = "pooled-credentials-keep-version"
-
 const (
 	frameLat  = 10 * time.Millisecond // one-way latency of a frame
 	hsTimeout = 10 * time.Second      // what the transports give a handshake (yamux: DialTimeoutSec, default 10)
@@ -581,10 +575,17 @@ func sameVerdict(a, b sideResult) bool {
 	return a.version == b.version && a.client == b.client && string(a.identity) == string(b.identity) && a.peerId == b.peerId
 }
 
-func run(c Case) (vstat.Outcome, error)       { return runMode(c, true) }
-func runStress(c Case) (vstat.Outcome, error) { return runMode(c, false) }
+type opts struct {
+	bubble   bool // fake time inside a synctest bubble (deterministic) / real time and parallelism
+	pristine bool // empty the handshake pool first and check the prefix-independence relation
+}
 
-func runMode(c Case, bubble bool) (out vstat.Outcome, err error) {
+func run(c Case) (vstat.Outcome, error)       { return runMode(c, opts{bubble: true, pristine: true}) }
+func runStress(c Case) (vstat.Outcome, error) { return runMode(c, opts{}) }
+func runFuzz(c Case) (vstat.Outcome, error)   { return runMode(c, opts{bubble: true}) }
+
+func runMode(c Case, o opts) (out vstat.Outcome, err error) {
+	bubble := o.bubble
 	normalise(&c)
 	if len(c.Steps) == 0 {
 		return out, nil
@@ -592,12 +593,13 @@ func runMode(c Case, bubble bool) (out vstat.Outcome, err error) {
 	rts, err := prepare(c)
 	if err != nil {
 		// a configuration the component refuses at Init is outside the domain
+		vstat.Count("init-refused", 1)
 		return out, nil
 	}
 	e := env{lat: frameLat, timeout: hsTimeout, bubble: bubble}
 	if !bubble {
 		e.lat, e.timeout = 0, 3*time.Second
-	} else {
+	} else if o.pristine {
 		poolMu.Lock()
 		defer poolMu.Unlock()
 		clearPool()
@@ -625,16 +627,12 @@ func runMode(c Case, bubble bool) (out vstat.Outcome, err error) {
 	}
 
 	cls := map[string]bool{}
-	known := vstat.KnownSignature(prop, knownPoolLeak)
 	anySuccess := false
 	for i, rt := range rts {
-		poolUsedBefore := i > 0 || c.Concurrent
-		nt, excluded, serr := checkStep(rt, results[i], poolUsedBefore, anySuccess, known, cls)
+		poolUsedBefore := i > 0 || c.Concurrent || !o.pristine
+		nt, serr := checkStep(rt, results[i], poolUsedBefore, anySuccess, cls)
 		if serr != nil {
 			return out, fmt.Errorf("connection %d of %d: %w", i+1, len(rts), serr)
-		}
-		if excluded {
-			out.Excluded = knownPoolLeak
 		}
 		out.NonTrivial = out.NonTrivial || nt
 		if results[i].o.ok && results[i].i.ok {
@@ -643,7 +641,7 @@ func runMode(c Case, bubble bool) (out vstat.Outcome, err error) {
 	}
 
 	// metamorphic: the verdict of the last connection is a function of that connection only
-	if bubble && !c.Concurrent && len(rts) >= 2 && out.Excluded == "" {
+	if o.pristine && !c.Concurrent && len(rts) >= 2 {
 		last := len(rts) - 1
 		clearPool()
 		var alone stepResult
@@ -704,13 +702,13 @@ func forging(kind int) bool {
 func ownCancel(r sideResult) bool { return r.returned && errors.Is(r.err, context.Canceled) }
 
 // checkStep applies the oracle to one connection.
-func checkStep(rt stepRT, r stepResult, poolUsedBefore, successBefore, known bool, cls map[string]bool) (nontrivial, excluded bool, err error) {
+func checkStep(rt stepRT, r stepResult, poolUsedBefore, successBefore bool, cls map[string]bool) (nontrivial bool, err error) {
 	st := rt.st
 	oHonest, iHonest := len(st.O.Script) == 0, len(st.I.Script) == 0
 
 	// 1. never an unbounded wait: everybody is back by the deadline the caller gave
 	if r.unbounded != "" {
-		return false, false, fmt.Errorf("unbounded wait: %sside still blocked %v after the %v deadline of its caller", r.unbounded, 5*time.Second, hsTimeout)
+		return false, fmt.Errorf("unbounded wait: %sside still blocked %v after the %v deadline of its caller", r.unbounded, 5*time.Second, hsTimeout)
 	}
 	for _, x := range []struct {
 		h bool
@@ -718,7 +716,7 @@ func checkStep(rt stepRT, r stepResult, poolUsedBefore, successBefore, known boo
 		n string
 	}{{oHonest, r.o, "outgoing"}, {iHonest, r.i, "incoming"}} {
 		if x.h && time.Duration(x.r.elapsed) > hsTimeout+time.Second {
-			return false, false, fmt.Errorf("%s side returned only after %v (deadline %v)", x.n, time.Duration(x.r.elapsed), hsTimeout)
+			return false, fmt.Errorf("%s side returned only after %v (deadline %v)", x.n, time.Duration(x.r.elapsed), hsTimeout)
 		}
 	}
 
@@ -755,21 +753,21 @@ func checkStep(rt stepRT, r stepResult, poolUsedBefore, successBefore, known boo
 		cls["proto-handshake"] = true
 		if r.i.ok {
 			if jerr := justifyProtoIn(r.delivered[0], st.PAllowed); jerr != nil {
-				return false, false, fmt.Errorf("incoming proto handshake succeeded without justification: %v", jerr)
+				return false, fmt.Errorf("incoming proto handshake succeeded without justification: %v", jerr)
 			}
 		}
 		if r.o.ok {
 			if jerr := justifyProtoOut(r.delivered[1]); jerr != nil {
-				return false, false, fmt.Errorf("outgoing proto handshake succeeded without justification: %v", jerr)
+				return false, fmt.Errorf("outgoing proto handshake succeeded without justification: %v", jerr)
 			}
 		}
 		if !applied && !cancelled && r.o.ok != r.i.ok {
-			return false, false, fmt.Errorf("undisturbed proto handshake: outgoing %s, incoming %s", descr(r.o), descr(r.i))
+			return false, fmt.Errorf("undisturbed proto handshake: outgoing %s, incoming %s", descr(r.o), descr(r.i))
 		}
 		if applied && !forged && r.o.ok && !r.i.ok && !ownCancel(r.i) {
-			return false, false, fmt.Errorf("proto handshake: outgoing side succeeded although the incoming side failed (%v)", r.i.err)
+			return false, fmt.Errorf("proto handshake: outgoing side succeeded although the incoming side failed (%v)", r.i.err)
 		}
-		return applied && validPrefix, false, nil
+		return applied && validPrefix, nil
 	}
 
 	if st.Direct {
@@ -779,38 +777,29 @@ func checkStep(rt stepRT, r stepResult, poolUsedBefore, successBefore, known boo
 	}
 
 	// 2. a success verdict is justified by what that side received, and reports what was proven
-	check := func(who string, honest bool, res sideResult, delivered []byte, v view) (bool, error) {
+	check := func(who string, honest bool, res sideResult, delivered []byte, v view) error {
 		if !honest {
-			return false, nil
+			return nil
 		}
 		p, jerr := justify(delivered, v)
-		// known finding: credentials that omit the version / client version while the pooled
-		// object may carry an earlier peer's values
-		if known && p.omitsFields && poolUsedBefore {
-			return true, nil
-		}
+		// the pool-leak shape (fixed finding): credentials without a version / client version
+		// field read into a pooled object that an earlier, successful connection has used
 		if p.omitsFields && poolUsedBefore && successBefore {
 			cls["omitted-field-after-successful-predecessor"] = true
 		}
 		if !res.ok {
-			return false, nil
+			return nil
 		}
 		if jerr != nil {
-			return false, fmt.Errorf("%s side reports success (%s) that nothing it received justifies: %v", who, descr(res), jerr)
+			return fmt.Errorf("%s side reports success (%s) that nothing it received justifies: %v", who, descr(res), jerr)
 		}
-		return false, checkReported(who+" side", res, p, v)
+		return checkReported(who+" side", res, p, v)
 	}
-	exO, err := check("outgoing", oHonest, r.o, r.delivered[1], rt.vo)
-	if err != nil {
-		return false, false, err
+	if err = check("outgoing", oHonest, r.o, r.delivered[1], rt.vo); err != nil {
+		return false, err
 	}
-	exI, err := check("incoming", iHonest, r.i, r.delivered[0], rt.vi)
-	if err != nil {
-		return false, false, err
-	}
-	if exO || exI {
-		cls["excluded-known-pool-leak"] = true
-		return false, true, nil
+	if err = check("incoming", iHonest, r.i, r.delivered[0], rt.vi); err != nil {
+		return false, err
 	}
 
 	// 3. verdicts of the two honest ends
@@ -818,14 +807,14 @@ func checkStep(rt stepRT, r stepResult, poolUsedBefore, successBefore, known boo
 		switch {
 		case !applied && !cancelled:
 			if r.o.ok != r.i.ok {
-				return false, false, fmt.Errorf("undisturbed handshake ends with different verdicts: outgoing %s, incoming %s", descr(r.o), descr(r.i))
+				return false, fmt.Errorf("undisturbed handshake ends with different verdicts: outgoing %s, incoming %s", descr(r.o), descr(r.i))
 			}
 			classifyHonest(st, rt, r, cls)
 		case !forged:
 			// truncation, oversize, wrong type, loss, reordering, duplication, cancellation: the
 			// outgoing side needs the final ack, which the incoming side only sends on success
 			if r.o.ok && !r.i.ok && !ownCancel(r.i) {
-				return false, false, fmt.Errorf("outgoing side succeeded although the incoming side failed with %q", r.i.err)
+				return false, fmt.Errorf("outgoing side succeeded although the incoming side failed with %q", r.i.err)
 			}
 		}
 		if r.i.ok && !r.o.ok {
@@ -856,7 +845,7 @@ func checkStep(rt stepRT, r stepResult, poolUsedBefore, successBefore, known boo
 	if st.O.Version == 0 && oHonest || st.I.Version == 0 && iHonest {
 		cls["legacy-version-0-peer"] = true
 	}
-	return nontrivial, false, nil
+	return nontrivial, nil
 }
 
 func classifyHonest(st Step, rt stepRT, r stepResult, cls map[string]bool) {
@@ -898,6 +887,8 @@ func classifyScript(st Step, rt stepRT, r stepResult, cls map[string]bool) {
 			} else {
 				cls["replayed-credentials-rejected"] = true
 			}
+		case f.Kind == fCred && (f.Payload == 1 || f.Payload == 2) && f.CredType == 1:
+			cls["adversary-omits-signed-payload"] = true
 		case f.Kind == fCred && f.Pad > 0:
 			cls["oversized-frame"] = true
 		case f.Kind == fCred && f.VerEnc == 0:
@@ -1119,7 +1110,13 @@ func genCase(rt *rapid.T) Case {
 		c.Steps = append(c.Steps, pre)
 		nxt := pre
 		nxt.O.Acc = rapid.IntRange(0, nAccounts-1).Draw(rt, "advAcc")
-		if rapid.Bool().Draw(rt, "legacyPeer") {
+		if ver && rapid.IntRange(0, 2).Draw(rt, "samePeerNoPayload") == 0 {
+			// the same transport peer id returns without an account signature
+			nxt.O.Acc = pre.O.Acc
+			f := Frame{Kind: fCred, CredType: 1, VerEnc: 1, Version: v, Client: rapid.IntRange(0, 3).Draw(rt, "fClient"),
+				Payload: rapid.IntRange(1, 2).Draw(rt, "payload"), Ident: nxt.O.Acc, Signer: nxt.O.Acc, From: nxt.O.Acc, To: nxt.I.Acc}
+			nxt.O.Script = []Frame{f, {Kind: fAck}}
+		} else if rapid.Bool().Draw(rt, "legacyPeer") {
 			nxt.O.Version = 0 // an honest first-generation peer: never sends a version field
 			nxt.O.Accept = []uint32{0, v}
 		} else {
@@ -1316,6 +1313,113 @@ func enumerate(yield func(Case) bool) {
 			}
 		}
 	}
+	// (d') the same for the payload: after a verified connection, the same transport peer id
+	// comes back with SignedPeerIds credentials that carry no (or an empty) payload — it holds
+	// the peer key but presents no account signature
+	for advIsO := 0; advIsO < 2; advIsO++ {
+		for pl := 1; pl <= 2; pl++ {
+			for reps := 1; reps <= 2; reps++ {
+				pre := baseStep(13, true)
+				nxt := baseStep(13, true)
+				if advIsO == 1 {
+					nxt.O.Script = []Frame{{Kind: fCred, CredType: 1, VerEnc: 1, Version: 13, Client: 1, Payload: pl, Ident: 0, Signer: 0, From: 0, To: 1}, {Kind: fAck}}
+				} else {
+					nxt.I.Script = []Frame{{Kind: fCred, CredType: 1, VerEnc: 1, Version: 13, Client: 2, Payload: pl, Ident: 1, Signer: 1, From: 1, To: 0}, {Kind: fAck, DelayMs: 25}}
+				}
+				steps := []Step{pre, nxt}
+				if reps == 2 {
+					steps = []Step{pre, pre, nxt}
+				}
+				if !emit(Case{Steps: steps}) {
+					return
+				}
+			}
+		}
+	}
+	// (e) a raw-frame adversary, as dialer and as listener, with every single deviation from
+	// correct credentials, against a verifying and a non-verifying honest side
+	for advIsO := 0; advIsO < 2; advIsO++ {
+		for verify := 0; verify < 2; verify++ {
+			adv, hon := 2, 1
+			for vi, script := range scriptVariants(adv, hon, 13) {
+				st := baseStep(13, verify == 1)
+				st.Sync = vi%3 == 0
+				st.ChunkOI, st.ChunkIO = []int{7, 1}, []int{2, 64}
+				if advIsO == 1 {
+					st.O.Acc, st.O.Script, st.O.CloseEnd = adv, script, vi%2 == 0
+				} else {
+					st.I.Acc, st.O.Acc = adv, hon
+					st.O.AcctCheck = verify == 1
+					st.I.Script, st.I.CloseEnd = script, vi%2 == 0
+				}
+				if !emit(Case{Steps: []Step{st}}) {
+					return
+				}
+			}
+		}
+	}
+}
+
+// padFor finds the padding that makes the body of a credentials frame exactly target bytes.
+func padFor(f Frame, target int) int {
+	f.Pad = 1
+	for i := 0; i < 4; i++ {
+		n := len(buildFrame(f, nil)) - headerSize
+		f.Pad += target - n
+		if f.Pad < 1 {
+			f.Pad = 1
+		}
+	}
+	return f.Pad
+}
+
+func scriptVariants(adv, hon int, ver uint32) (res [][]Frame) {
+	good := Frame{Kind: fCred, CredType: 1, VerEnc: 1, Version: ver, Client: 1, Ident: adv, Signer: adv, From: adv, To: hon}
+	ack := Frame{Kind: fAck}
+	mod := func(f func(*Frame)) {
+		c := good
+		f(&c)
+		res = append(res, []Frame{c, ack})
+	}
+	mod(func(f *Frame) {})
+	mod(func(f *Frame) { f.VerEnc = 0 })
+	mod(func(f *Frame) { f.Version = 0 })
+	mod(func(f *Frame) { f.Version = ver + 1 })
+	mod(func(f *Frame) { f.Client = 0 })
+	mod(func(f *Frame) { f.From, f.To = hon, adv })
+	mod(func(f *Frame) { f.To = 3 })
+	mod(func(f *Frame) { f.To = adv })
+	mod(func(f *Frame) { f.From = 3 })
+	mod(func(f *Frame) { f.From = hon })
+	mod(func(f *Frame) { f.Ident = 0 })
+	mod(func(f *Frame) { f.Signer = 0 })
+	mod(func(f *Frame) { f.Ident, f.Signer = 0, 0 })
+	for pl := 1; pl <= 4; pl++ {
+		mod(func(f *Frame) { f.Payload = pl })
+	}
+	for _, ct := range []int{0, 2, 7} {
+		mod(func(f *Frame) { f.CredType = ct })
+	}
+	mod(func(f *Frame) { f.Pad = padFor(*f, sizeLimit) })
+	mod(func(f *Frame) { f.Pad = padFor(*f, sizeLimit+1) })
+	mod(func(f *Frame) { f.Pad = sizeLimit + 64 })
+	for _, d := range []int{-1, 1, 100, sizeLimit} {
+		mod(func(f *Frame) { f.LenDelta = d })
+	}
+	for _, bt := range []int{1, 3, 4, 5, 256} {
+		mod(func(f *Frame) { f.BadType = bt })
+	}
+	// tails after correct credentials
+	res = append(res, []Frame{good})
+	res = append(res, []Frame{good, {Kind: fAck, AckErr: 2}})
+	res = append(res, []Frame{good, {Kind: fAck, AckErr: 6, DelayMs: 25}})
+	res = append(res, []Frame{ack, good})
+	res = append(res, []Frame{good, good, ack})
+	res = append(res, []Frame{good, {Kind: fProto, Enc: []int{1}}, ack})
+	res = append(res, []Frame{good, {Kind: fAck, BadType: 2}, ack})
+	res = append(res, []Frame{good, {Kind: fRaw, Raw: []byte{2, 0, 0}}})
+	res = append(res, []Frame{{Kind: fRaw, Raw: []byte{1}}})
+	return
 }
 
 // ---- tests --------------------------------------------------------------------------------------------
@@ -1334,5 +1438,123 @@ func TestReplay(t *testing.T) {
 	t.Run("TestRandom", func(t *testing.T) { single(t); vstat.Replay(t, prop, "TestRandom", run) })
 	t.Run("TestExhaustive", func(t *testing.T) { single(t); vstat.Replay(t, prop, "TestExhaustive", run) })
 	t.Run("TestStress", func(t *testing.T) { outerT = t; vstat.Replay(t, prop, "TestStress", runStress) })
-	t.Run("TestReg", func(t *testing.T) { single(t); vstat.Replay(t, prop, "TestReg", run) })
+	for _, n := range []string{"TestRegPoolLeak", "TestRegPoolLeakFalseReject", "TestRegRelay", "TestRegReplay", "TestRegFinalAckLost"} {
+		t.Run(n, func(t *testing.T) { single(t); vstat.Replay(t, prop, n, run) })
+	}
+}
+
+// ---- hand-picked corner cases --------------------------------------------------------------------
+
+// Fixed finding (pooled handshake object kept Version / ClientVersion of the previous
+// peer): a peer whose credentials carry no version field, after a compatible peer, to a
+// verifier that does not accept version 0, must be rejected.
+var casePoolLeak = func() Case {
+	pre := baseStep(13, true)
+	nxt := baseStep(13, true)
+	nxt.O.Acc = 2
+	nxt.O.Script = []Frame{{Kind: fCred, CredType: 1, VerEnc: 0, Client: 1, Ident: 2, Signer: 2, From: 2, To: 1}, {Kind: fAck}}
+	return Case{Steps: []Step{pre, nxt}}
+}()
+
+func TestRegPoolLeak(t *testing.T) { single(t); vstat.One(t, prop, casePoolLeak, run) }
+
+// Relay: both honest ends see the adversary's transport id; verification must fail on both.
+func TestRegRelay(t *testing.T) {
+	single(t)
+	st := baseStep(13, true)
+	st.O.Sees, st.I.Sees = 2, 2
+	vstat.One(t, prop, Case{Steps: []Step{st}}, run)
+}
+
+// Credentials recorded between accounts 0 and 1 replayed by account 2 / to account 3.
+func TestRegReplay(t *testing.T) {
+	single(t)
+	pre := baseStep(13, true)
+	a, b, c := baseStep(13, true), baseStep(13, true), baseStep(13, true)
+	a.O.Acc, a.O.Script = 2, []Frame{{Kind: fRecorded, Step: 0, Dir: 0, Idx: 0}, {Kind: fAck}}
+	b.I.Acc, b.O.Script = 3, []Frame{{Kind: fRecorded, Step: 0, Dir: 0, Idx: 0}, {Kind: fAck}}
+	c.O.Script = []Frame{{Kind: fRecorded, Step: 0, Dir: 0, Idx: 0}, {Kind: fAck}} // same endpoints
+	vstat.One(t, prop, Case{Steps: []Step{pre, a, b, c}}, run)
+}
+
+// The final ack is lost: the incoming side has completed, the outgoing side must fail by its deadline.
+func TestRegFinalAckLost(t *testing.T) {
+	single(t)
+	st := baseStep(13, true)
+	st.Tampers = []Tamper{{Dir: 1, Idx: 1, Kind: kDrop}}
+	vstat.One(t, prop, Case{Steps: []Step{st}}, run)
+}
+
+// The converse of the same finding: a first-generation peer (version 0, no version field) is
+// accepted by a verifier that accepts only 0 — also after the process handled a version-13 peer.
+func TestRegPoolLeakFalseReject(t *testing.T) {
+	single(t)
+	pre := baseStep(13, false)
+	nxt := baseStep(13, false)
+	nxt.O.Acc, nxt.O.Version, nxt.O.Accept = 2, 0, []uint32{5}
+	nxt.I.Acc, nxt.I.Version, nxt.I.Accept = 3, 5, []uint32{0}
+	vstat.One(t, prop, Case{Steps: []Step{pre, nxt}}, run)
+}
+
+// ---- native fuzzing of the frame stream ------------------------------------------------------------
+
+func fuzzCase(cfg byte, data []byte) Case {
+	st := baseStep(13, cfg&2 != 0)
+	st.Sync = cfg&4 != 0
+	switch (cfg >> 3) & 3 {
+	case 1:
+		st.ChunkOI, st.ChunkIO = []int{1}, []int{1}
+	case 2:
+		st.ChunkOI, st.ChunkIO = []int{5, 3}, []int{4, 9}
+	}
+	st.Direct = cfg&32 != 0
+	script := []Frame{{Kind: fRaw, Raw: data}}
+	if cfg&1 == 0 {
+		st.O.Script, st.O.CloseEnd = script, cfg&64 != 0
+	} else {
+		st.I.Script, st.I.CloseEnd = script, cfg&64 != 0
+	}
+	return Case{Steps: []Step{st}}
+}
+
+// FuzzIncomingFrames feeds arbitrary bytes to IncomingHandshake (cfg bit 0 clear) or
+// OutgoingHandshake (set): the call must return — error or success, no panic, no hang
+// beyond the deadline — and a success must be justified by the bytes (valid credentials
+// where verification is required, accepted version, Ack{Null}).
+func FuzzIncomingFrames(f *testing.F) {
+	// seeds: the streams of undisturbed handshakes, as delivered to either side
+	for _, verify := range []bool{false, true} {
+		st := baseStep(13, verify)
+		rts, err := prepare(Case{Steps: []Step{st}})
+		if err != nil {
+			f.Fatal(err)
+		}
+		r := execStep(env{timeout: 3 * time.Second}, 0, rts[0], &store{written: map[int][2][][]byte{}})
+		if !r.o.ok || !r.i.ok {
+			f.Fatalf("seed handshake failed: %v / %v", r.o.err, r.i.err)
+		}
+		for cfg := 0; cfg < 128; cfg += 8 {
+			b := byte(cfg)
+			if verify {
+				b |= 2
+			}
+			f.Add(b, r.delivered[0])
+			f.Add(b|1, r.delivered[1])
+			f.Add(b|4|32|64, r.delivered[0][:len(r.delivered[0])-headerSize])
+		}
+	}
+	f.Add(byte(0), []byte{1, 0xff, 0xff, 0xff, 0xff})
+	f.Add(byte(3), []byte{2, 0, 0, 0, 0})
+	f.Fuzz(func(t *testing.T, cfg byte, data []byte) {
+		if len(data) > sizeLimit+4096 {
+			return
+		}
+		outerT = t
+		c := fuzzCase(cfg, data)
+		o, err := runFuzz(c)
+		if err != nil {
+			t.Fatalf("property %s violated: %v", prop, err)
+		}
+		vstat.Record("FuzzIncomingFrames", o, nil)
+	})
 }
